@@ -457,3 +457,7 @@ add_multi("bounds-pair-checked-by-assert", F, ["C07"], [
 ], "C07-15")
 add("s-bounds-pair-test-named", S, ["C07", "C01", "C09"], "dfols/solver.py", "    if bounds is not None and len(bounds) != 2:\n        exit_info = ExitInformation(EXIT_INPUT_ERROR, \"bounds must be a 2-tuple",
     "    bounds_malformed = bounds is not None and len(bounds) != 2\n    if bounds_malformed:\n        exit_info = ExitInformation(EXIT_INPUT_ERROR, \"bounds must be a 2-tuple")
+
+# ---- C07-16: one-sided handler (pre-repair form of F07l)
+add("iteration-estimate-handler-names-only-valueerror", F, ["C07"], "dfols/trust_region.py", "    except (ValueError, OverflowError):  # NaN, or an infinite bound (func_tol = 0)\n", "    except ValueError:\n", "C07-16")
+add("s-iteration-estimate-handler-arithmetic-error", S, ["C07"], "dfols/trust_region.py", "    except (ValueError, OverflowError):  # NaN, or an infinite bound (func_tol = 0)\n", "    except (ValueError, ArithmeticError):\n")
